@@ -2,6 +2,7 @@
 #include <igris/util/ctype.h>
 #include <igris/util/hexascii.h>
 #include <igris/util/numconvert.h>
+#include <float.h>
 #include <math.h>
 #include <string.h>
 
@@ -501,7 +502,10 @@ float64_t igris_atof64(const char *nptr, char **endptr)
         {
             while ((*eptr >= '0' && *eptr <= '9'))
             {
-                e_val = e_val * 10 + (*eptr - '0');
+                // saturate: anything beyond this is 0 or infinity anyway,
+                // and e_val must not overflow
+                if (e_val < 100000)
+                    e_val = e_val * 10 + (*eptr - '0');
                 eptr++;
             }
             d += e_val * e_sign;
@@ -512,7 +516,7 @@ float64_t igris_atof64(const char *nptr, char **endptr)
     // Scale by 10^d with as few roundings as possible: the power is built by
     // squaring (10^1 .. 10^22 are exact in binary64) and applied in a single
     // multiplication or division, instead of one rounding per decimal place.
-    while (d != 0)
+    while (d != 0 && val != 0.0 && val <= DBL_MAX)
     {
         int up = d > 0;
         int n = up ? d : -d;
